@@ -360,7 +360,11 @@ func (p *Pkg) resolveTypeErr(e ast.Expr) (*T, error) {
 		if kt.Name == "Variable" && vt.K == KPtr && vt.Elem.K == KIface && vt.Elem.Name == "Term" {
 			return &T{K: KMap, Key: kt, Elem: vt}, nil
 		}
-		return nil, fmt.Errorf("map type map[%v]%v (only map[Variable]*Term is represented)", kt, vt)
+		// a set of strings: map[string]struct{} (unnamed key and value types), represented by list bytes
+		if kt.K == KString && kt.Name == "" && vt.K == KStruct && vt.Name == "" {
+			return &T{K: KStrSet}, nil
+		}
+		return nil, fmt.Errorf("map type map[%v]%v (only map[Variable]*Term and map[string]struct{} are represented)", kt, vt)
 	case *ast.ParenExpr:
 		return p.resolveTypeErr(e.X)
 	}
